@@ -17,7 +17,7 @@ RULE = ("(a) FakeBLE -> FakeBLE over the simulated air on all three channels and
         "advertised at the service's resolution, nothing queued for inconsistent length/CRC, no "
         "exception from available(), read() in arrival order. Non-trivial: a packet was decoded "
         "or rejected by the reference; distinct = (packet class, field shapes, channel).")
-RULE += (" Later rounds added: reserved length bits, per-packet TX power without re-toggling, damaged repeats of a packet the receiver has just accepted, URLs with several expansion codes, byte / multi-byte names and the complete-name type, a with boundary after the channel was assigned, the air kind on all three channels.")
+RULE += (" Later rounds added: reserved length bits, per-packet TX power without re-toggling, damaged repeats of a packet the receiver has just accepted, URLs with several expansion codes, byte / multi-byte names and the complete-name type, a with boundary after the channel was assigned, the air kind on all three channels, zero-length names, temperatures whose sign alternates from packet to packet, a foreign capture (noise / an over-long advertisement) at the head of the RX FIFO with the known packet behind it.")
 REQUIRED = {"valid_decoded_equal": 600, "corrupted_not_queued": 1500, "available_never_raises": 3000,
             "read_order": 200, "service_values": 400}
 BUDGET = {"quick": 480, "thorough": 900}
@@ -223,6 +223,26 @@ def run_case(ctx, case):
                     if exc is not None or len(rx.rx_queue) != 1:
                         ctx.violation("valid-packet-count/ref", "the undamaged packet was not queued before its "
                                       "damaged repeats (available() -> %r, %r; queue %d)" % (av, exc, len(rx.rx_queue)), case)
+                        return
+                    del rx.rx_queue[:]
+                if fi % 4 == 2:
+                    # one poll finds several captures waiting: something that is not for us at the head
+                    # (noise / a legal advertisement too long for this radio), the known packet behind it
+                    head = [bytes(rng.getrandbits(8) for _ in range(32)),
+                            ble_ref.encode(mac, [(0xFF, bytes(rng.getrandbits(8) for _ in range(22)))], chidx)][(fi // 4) % 2]
+                    rr.rx_fifo.clear()
+                    rr.inject_rx(0, head)
+                    rr.inject_rx(0, bytes(good))
+                    exc = None
+                    for _ in range(4):
+                        av, exc = safe_available()
+                        if exc is not None or not rr.rx_fifo:
+                            break
+                    ctx.clause("valid_behind_foreign_capture")
+                    if exc is not None or len(rx.rx_queue) != 1 or bytes(rx.rx_queue[0].mac) != mac:
+                        ctx.violation("valid-packet-count/behind-foreign", "a %s at the head of the RX FIFO and the known "
+                                      "packet behind it: %d element(s) queued (%r)"
+                                      % (["noise payload", "over-long advertisement"][(fi // 4) % 2], len(rx.rx_queue), exc), case)
                         return
                     del rx.rx_queue[:]
                 bad = bytearray(good)
